@@ -470,6 +470,18 @@ def by_dataflow(out, f, S_, wantI, some_flows):
     """the data flow of the safegcd driver around fiat's divstep (the loop is not unrolled: one iteration's state transformer is judged)"""
     N32 = LIMBS64[f] * 2
     ws = [(a, site) for pc, kind, a, site in out.effects if kind == "while_state" and any(po is not None and any(u.op == "fiat_divstep" for u in Tm.subterms(po)) for po in a[2])]
+    # the same loop written as `for _ in 0..K { .. }` arrives as a symbolic fold: inits / carried symbols / next values are the same three rows
+    fold_passes = None
+    fold_term = None
+    if not ws:
+        for pc, kind, a, site in out.effects:
+            if kind == "loop" and a and a[0].op == "fold" and any(u.op == "fiat_divstep" for nx in a[0].args[4] for u in Tm.subterms(nx)):
+                it, item, accs, inits, nexts = a[0].args
+                rng = dict(zip(it.args[1], it.args[2:])) if it.op == "struct" and it.args[0] == "core::ops::Range" else {}
+                if rng.get("start") is lit(0) and Tm.is_lit(rng.get("end")):
+                    fold_passes = rng["end"].args[0]
+                    fold_term = a[0]
+                    ws.append(((tuple(inits), tuple(accs), tuple(nexts)), {"pc_after": None}))
     if len(ws) != 1:
         return False, "expected exactly one loop around divstep, found %d" % len(ws)
     (entry, syms, post), site = ws[0]
@@ -488,10 +500,13 @@ def by_dataflow(out, f, S_, wantI, some_flows):
     if not (two or one):
         return False, "after one pass of the loop the carried (d, f, g, v, r) must be the outputs 0..4 of divstep (applied once or twice) in this order; got %s" % [Tm.show(pst[x], maxdepth=2) for x in st]
     step = 2 if two else 1
+    if fold_passes is not None:
+        if fold_passes * step != wantI - wantI % step:
+            return False, "the loop makes %d passes of %d divstep(s); %d steps are required" % (fold_passes, step, wantI - wantI % step)
     ctr = [c for c in syms if ent[c] is lit(0) and pst[c] is Tm.intop("iadd", c, lit(step))]
     bound = [c_.args[0].args[1] for c_ in (site.get("pc_after") or ()) if c_.op == "not" and c_.args[0].op == "ge" and c_.args[0].args[0] in ctr and Tm.is_lit(c_.args[0].args[1])]
     want_bound = wantI - wantI % step
-    if len(bound) != 1 or bound[0].args[0] != want_bound:
+    if fold_passes is None and (len(bound) != 1 or bound[0].args[0] != want_bound):
         return False, "the loop must run while a counter starting at 0 and advancing by %d is below %d; counters %s, bounds %s" % (step, want_bound, [Tm.show(c) for c in ctr], [Tm.show(b) for b in bound])
     d0, f0, g0, v0, r0 = [ent[x] for x in st]
 
@@ -520,6 +535,10 @@ def by_dataflow(out, f, S_, wantI, some_flows):
         Vf, Ff = mk("out", D3, 3), mk("out", D3, 1)
     else:
         Vf, Ff = st[3], st[1]
+    if fold_term is not None:
+        # after a fold the carried values are its projections
+        after = {sy: mk("proj", fold_term, k) for k, sy in enumerate(syms)}
+        Vf, Ff = Tm.subst(Vf, after), Tm.subst(Ff, after)
     sbit = mk("cast", "u8", Tm.intop("band", Tm.intop("shr", Tm.index(Ff, lit(N32)), lit(31)), lit(1)))
     negv = mk("mont", mk("neg", mk("unmont", Vf)))
     want = mk("mont", mk("mul", mk("unmont", Tm.ite(Tm.ne(sbit, lit(0)), negv, Vf)), mk("unmont", mk("fiat_divstep_precomp", f))))
